@@ -52,9 +52,16 @@ def _mk_hook(kind, owner_name):
         TRACE.append((kind, owner_name, cls.__name__))
         if kind == 'recognize':
             # the same rule automatic recognition would apply
-            for k in {'A': 'a', 'B': 'ab', 'C': 'abc', 'S': 'as',
-                      'M': 'a', 'X': 'absx'}[owner_name]:
+            own = {'A': 'a', 'B': 'ab', 'C': 'abc', 'S': 'as',
+                   'M': 'a', 'X': 'absx'}[owner_name]
+            for k in own:
                 node.require_attribute(k, int)
+            # ... and, like it, a mapping with other keys is not this class
+            # (it may well be a derived one: that is not this hook's call)
+            for key_node, _ in node.yaml_node.value:
+                if key_node.value not in own:
+                    raise yatiml.RecognitionError(
+                        'not a(n) %s: key %s' % (owner_name, key_node.value))
         if kind == 'savorize' and RAISE[0] == owner_name:
             if BARE[0]:
                 raise yatiml.SeasoningError     # no message at all
